@@ -330,6 +330,7 @@ func RunCase(d Drawer, cfg CaseConfig) (res CaseResult) {
 	s = NewSim(d, w, mon)
 	s.Exclude = cfg.Exclude
 	s.OutOn = cfg.RecordOut
+	s.NoIDReuse = cfg.Liveness
 	s.Boot()
 	// prelude (drawn, shrinks to "none"): most interesting states need an
 	// elected leader and some committed entries to start from
@@ -765,7 +766,15 @@ func (s *Sim) drawConfChange() *pb.ConfChangeV2 {
 	d := s.D
 	conf := s.Reg.latestConf()
 	var members, nonMembers, voters, learners []uint64
+	var retired map[uint64]bool
+	if s.NoIDReuse {
+		retired = s.Reg.retiredBefore(^uint64(0))
+	}
 	for _, id := range s.IDs {
+		if retired[id] {
+			// an id that was removed from the group never joins again
+			continue
+		}
 		switch {
 		case conf.Voters[id]:
 			voters = append(voters, id)
